@@ -3,7 +3,7 @@
 From Coq Require Import ZArith List Bool Lia.
 From Mistletoe Require Import Base.Sx Base.PyStr Base.PyText Gen.GenConfig Model.Tree Model.CoreTokens Model.Inline
      Proofs.PlainProse Proofs.EmphSentence Proofs.RefSentence Proofs.LinkSentence Proofs.CodeSpan Proofs.StrikeSentence Proofs.EscSentence Proofs.ImageSentence
-     Proofs.LeafSpans Proofs.ListLaw Proofs.EmphSimple Proofs.EmphPhrases Proofs.NestedEmph Proofs.TitleLink Proofs.AutoLinkSentence Spec.Fragment.
+     Proofs.LeafSpans Proofs.ListLaw Proofs.EmphSimple Proofs.EmphPhrases Proofs.NestedEmph Proofs.TitleLink Proofs.AutoLinkSentence Proofs.AngleLink Spec.Fragment.
 Import ListNotations.
 Local Open Scope Z_scope.
 
@@ -15,6 +15,7 @@ Definition inl_ok (pre : str) (x : inl) (post : str) : bool :=
   | INest ch k h ps z => nest_ok ch k pre h ps z post
   | ILinkT w d q tl => tlink_ok pre w d q tl post && (match tl with [] => false | _ => true end)
   | IAuto c0 sc r => auto_ok pre c0 sc r post
+  | ILinkA w c0 d => alink_ok pre w c0 d post
   end.
 
 Definition inl_tok (x : inl) : tok :=
@@ -25,6 +26,7 @@ Definition inl_tok (x : inl) : tok :=
   | INest ch k h ps z => nest_of ch k h ps z
   | ILinkT w d q tl => tlink_of w d q tl
   | IAuto c0 sc r => auto_of (c0 :: sc ++ 58 :: r)
+  | ILinkA w c0 d => alink_of w (c0 :: d)
   end.
 
 Theorem one_in_sentence types fn pre x post :
@@ -32,24 +34,26 @@ Theorem one_in_sentence types fn pre x post :
   tokenize_inner types fn (pre ++ inl_text x ++ post) = raw_if pre ++ [inl_tok x] ++ raw_if post.
 Proof.
   intros Hs Hem Ho. unfold leaf_spans in Hs. repeat rewrite andb_true_iff in Hs. destruct Hs as [[[[Hr _] Hst] He] Hau].
-  destruct x as [w|c|w d|ch k h ps z|w d q tl|u0 usc ur]; cbn [inl_ok inl_text inl_tok] in *.
+  destruct x as [w|c|w d|ch k h ps z|w d q tl|u0 usc ur|aw a0 ad]; cbn [inl_ok inl_text inl_tok] in *.
   - rewrite <- !app_assoc. apply strike_in_sentence; assumption.
   - change (pre ++ [92; c] ++ post) with (pre ++ [92; c] ++ post). apply escape_in_sentence; assumption.
   - rewrite <- !app_assoc. apply image_in_sentence; assumption.
   - pose proof (nested_emphasis types fn ch k pre h ps z post Hem Ho) as T. unfold nest_text in T. rewrite <- !app_assoc in T. rewrite <- !app_assoc. exact T.
   - apply andb_true_iff in Ho as [Ho _]. rewrite <- !app_assoc. change (title_closer q) with (closer q). apply titled_link_in_sentence; assumption.
   - pose proof (autolink_in_sentence types fn pre u0 usc ur post Hau Ho) as T. rewrite <- !app_assoc. exact T.
+  - pose proof (angle_link_in_sentence types fn pre aw a0 ad post Hr Hau Ho) as T. rewrite <- !app_assoc. exact T.
 Qed.
 
 Lemma inl_plain pre x post : inl_ok pre x post = true -> plain_text pre = true /\ plain_text post = true.
 Proof.
-  destruct x as [w|c|w d|ch k h ps z|w d q tl|u0 usc ur]; cbn [inl_ok]; intros H.
+  destruct x as [w|c|w d|ch k h ps z|w d q tl|u0 usc ur|aw a0 ad]; cbn [inl_ok]; intros H.
   - unfold strike_ok in H. repeat rewrite andb_true_iff in H. tauto.
   - unfold esc_ok in H. repeat rewrite andb_true_iff in H. tauto.
   - unfold ilink_ok in H. repeat rewrite andb_true_iff in H. tauto.
   - unfold nest_ok in H. repeat rewrite andb_true_iff in H. tauto.
   - unfold tlink_ok, ilink_ok in H. repeat rewrite andb_true_iff in H. tauto.
   - unfold auto_ok in H. repeat rewrite andb_true_iff in H. tauto.
+  - unfold alink_ok in H. repeat rewrite andb_true_iff in H. tauto.
 Qed.
 
 (* neither a newline nor a pipe in the sentence *)
@@ -60,7 +64,7 @@ Proof.
   assert (Hr : mem c triggers_r = true) by (destruct Hc as [->| ->]; reflexivity).
   unfold mem. rewrite !existsb_app. fold (mem c pre). fold (mem c post). fold (mem c (inl_text x)).
   rewrite (plain_no c pre Ht Hpre), (plain_no c post Ht Hpost), orb_false_r. cbn [orb].
-  destruct x as [w|e|w d|ch k h ps z|w d q tl|u0 usc ur]; cbn [inl_ok inl_text] in *.
+  destruct x as [w|e|w d|ch k h ps z|w d q tl|u0 usc ur|aw a0 ad]; cbn [inl_ok inl_text] in *.
   - unfold strike_ok in Ho. repeat rewrite andb_true_iff in Ho. destruct Ho as [[[_ Hw] _] _].
     unfold mem. rewrite !existsb_app. fold (mem c w). rewrite (plain_no c w Ht Hw). destruct Hc as [->| ->]; reflexivity.
   - unfold esc_ok in Ho. repeat rewrite andb_true_iff in Ho. destruct Ho as [_ He]. unfold esc_char in He. apply andb_true_iff in He as [_ He]. apply negb_true_iff in He.
@@ -85,4 +89,7 @@ Proof.
   - unfold auto_ok in Ho. repeat rewrite andb_true_iff in Ho. destruct Ho as [[[[[[[_ _] H3] H4] H5] H6] _] H8]. apply Nat.leb_le in H5, H6.
     pose proof (url_plain [] u0 usc ur H3 H4 (conj H5 H6) H8) as Hu.
     unfold mem. rewrite !existsb_app. fold (mem c (u0 :: usc ++ 58 :: ur)). rewrite (plain_no c _ Ht Hu). destruct Hc as [->| ->]; reflexivity.
+  - unfold alink_ok in Ho. repeat rewrite andb_true_iff in Ho. destruct Ho as [[[[[[[_ Hw] _] _] _] _] Hd] _].
+    assert (Ha : mem c triggers_a = true) by (destruct Hc as [->| ->]; reflexivity).
+    unfold mem. rewrite !existsb_app. fold (mem c aw). fold (mem c (a0 :: ad)). rewrite (plain_no c aw Ht Hw), (adest_no c (a0 :: ad) (or_introl Ha) Hd). destruct Hc as [->| ->]; reflexivity.
 Qed.
